@@ -55,6 +55,8 @@ PINS = [
     'mesonbuild.mintro:list_install_plan',
     'mesonbuild.mintro:write_intro_info',
     'mesonbuild.dependencies.base:Dependency.__init__',
+    'mesonbuild.depfile:DepFile.get_all_dependencies',
+    'mesonbuild.depfile:DepFile.__init__',
     'mesonbuild.modules.pkgconfig:PkgConfigModule._generate_pkgconfig_file',
 ]
 TRUSTED = [
@@ -249,6 +251,25 @@ def gen_cases(ctx: Ctx, mult: int = 1, only: T.Optional[T.Set[str]] = None) -> T
         fl = distinct(rng, rng.randint(0, 5), lambda: rstr(rng, 4, 0))
         dl = distinct(rng, rng.randint(0, 4), lambda: rstr(rng, 4, 0))
         group('excludes', [{'files': pf, 'dirs': pd} for pf, pd in zip(perms(rng, fl, V), perms(rng, dl, V))])
+    # DepFile.get_all_dependencies: a dependency graph as make rules; variants permute rules and deps
+    names = ['out', 'd1', 'd2', 'd3', 'd4', 't1', 't2', 't3', 'u1', 'u2', 'v1', 'x y', 'é', 'Z']
+    for _ in range(n(150, 1500)):
+        nodes = rng.sample(names, rng.randint(2, 9))
+        rules = []
+        for _r in range(rng.randint(0, 6)):
+            tg = rng.sample(nodes, rng.randint(1, 2))
+            dp = [rng.choice(nodes) for _ in range(rng.randint(0, 4))]
+            rules.append((tg, dp))
+        name = rng.choice(nodes + ['missing'])
+
+        def render(rs):
+            return [' '.join(x.replace(' ', '\\ ') for x in tg) + ': ' + ' '.join(x.replace(' ', '\\ ') for x in dp) + '\n'
+                    for tg, dp in rs]
+        variants = []
+        for pr in perms(rng, rules, V):
+            pr = [(tg, rng.sample(dp, len(dp))) for tg, dp in pr]
+            variants.append({'lines': render(pr), 'name': name})
+        group('depfile', variants)
     # writers on a real directory
     for _ in range(n(120, 1500)):
         ops = [[rng.choice('wrrrxx'), rng.randint(0, 3), rng.randint(0, 2)] for _ in range(rng.randint(1, 9))]
@@ -381,7 +402,7 @@ def inproc_layer(ctx: Ctx, cases: T.List[dict], seeds: T.List[str], compare_mode
             ctx.tag('error:' + r['impl'].split(':')[1])
         if a != r['impl']:
             ctx.disagreement({'kind': c['kind'], 'case': strip_case(c), 'hashseed': seed, 'impl': r['impl'][:400], 'model': a[:400]})
-        nontrivial = (c['kind'] in ('sorted', 'buildline', 'envhash', 'cheader', 'optsort', 'buildopts', 'excludes', 'testser')
+        nontrivial = (c['kind'] in ('sorted', 'buildline', 'envhash', 'cheader', 'optsort', 'buildopts', 'excludes', 'testser', 'depfile')
                       and r['line'] != '' and len(json.dumps(strip_case(c))) > 60) or c['kind'] == 'fs'
         if nontrivial:
             ctx.seen_nontrivial((c['kind'], json.dumps(strip_case(c), sort_keys=True)))
